@@ -51,7 +51,7 @@ Definition required_keys_list (t : tx_ops) : list key :=
   ++ flat_map (fun e => creds_keys (cert_witness_creds (fst e)) ++ wit_signers (snd e)) (certs_run (t_certs t))
   ++ flat_map (fun e => cred_key (fst e) ++ wit_signers (snd e)) (wd_run (t_withdrawals t))
   ++ flat_map (fun e => cred_key (v_cred (fst e)) ++ wit_signers (snd e)) (votes_run (t_votes t))
-  ++ flat_map (fun m => declared_signers (mint_swit m)) (mint_run (t_mint t))
+  ++ flat_map (fun m => declared_signers (mint_swit m)) (mint_run (mint_wits t))
   ++ flat_map (fun e => wit_signers (snd e)) (props_run (t_proposals t)).
 Definition required_keys_spec (t : tx_ops) : list key := nodup N.eq_dec (required_keys_list t).
 
@@ -83,7 +83,7 @@ Definition mk_items (tag : N) (locked : option sid) (w : option swit) : list sit
 Definition cred_script (c : cred) : option sid := match c with CS s => Some s | CK _ => None end.
 Definition script_items (t : tx_ops) : list sitem :=
   flat_map (fun e => mk_items TAG_SPEND None (owner_swit (snd e))) (final_owners (t_inputs t))
-  ++ map (fun m => {| si_tag := TAG_MINT; si_locked := None; si_wit := mint_swit m |}) (mint_run (t_mint t))
+  ++ map (fun m => {| si_tag := TAG_MINT; si_locked := None; si_wit := mint_swit m |}) (mint_run (mint_wits t))
   ++ flat_map (fun e => mk_items TAG_CERT (cred_script (c_cred (fst e))) (snd e)) (certs_run (t_certs t))
   ++ flat_map (fun e => mk_items TAG_REWARD (cred_script (fst e)) (snd e)) (wd_run (t_withdrawals t))
   ++ flat_map (fun e => mk_items TAG_VOTE (cred_script (v_cred (fst e))) (snd e)) (votes_run (t_votes t))
@@ -122,7 +122,9 @@ Record emitted : Type := {
   e_datums : list did;             (* witness set, Plutus data *)
   e_redeemers : list (N * N);      (* witness set, redeemers as (tag, payload) *)
   e_refs : list oref;              (* body, reference inputs *)
-  e_inputs : list oref             (* body, inputs *)
+  e_inputs : list oref;            (* body, inputs *)
+  e_mint : list sid;               (* body, policies of the mint *)
+  e_vote_redeemers : list (N * N)  (* witness set, vote redeemers as (index, payload) *)
 }.
 
 (* the script of an item is at hand: inline -> exactly one copy in the witness set; by reference -> the
@@ -167,10 +169,22 @@ Definition scripts_available (t : tx_ops) (e : emitted) : bool :=
 Definition scripts_not_twice (t : tx_ops) (e : emitted) : bool :=
   forallb (item_script_not_twice e) (script_items t).
 
-Definition model_emitted (t : tx_ops) : emitted :=
+(* every vote cast with a Plutus witness has a redeemer at the position of its voter in the ledger's order of
+   voters (Conway: committee < DRep < stake pool; script credentials before key credentials; hash bytes) *)
+Definition vote_redeemers_ok (hr : hash_rank) (t : tx_ops) (e : emitted) : bool :=
+  forallb (fun x => existsb (fun y => N.eqb (fst x) (fst y) && N.eqb (snd x) (snd y)) (e_vote_redeemers e))
+          (votes_redeemers hr (votes_run (t_votes t))).
+(* every policy the builder holds a witness for (script, redeemer, reference input, signers) is minted by the body:
+   nothing is emitted or sized for a policy that the body does not carry *)
+Definition mint_policies_ok (t : tx_ops) (e : emitted) : bool :=
+  forallb (fun m => memN (mw_hash m) (e_mint e)) (mint_run (mint_wits t)).
+
+Definition model_emitted_hr (hr : hash_rank) (t : tx_ops) : emitted :=
   {| e_native := ws_native_scripts t; e_plutus := ws_plutus_scripts t; e_datums := ws_datums t;
      e_redeemers := map (fun r => (fst r, snd (snd r))) (ws_redeemers t);
-     e_refs := body_reference_inputs t; e_inputs := body_inputs t |}.
+     e_refs := body_reference_inputs t; e_inputs := body_inputs t;
+     e_mint := body_mint_policies t; e_vote_redeemers := votes_redeemers hr (votes_run (t_votes t)) |}.
+Definition model_emitted (t : tx_ops) : emitted := model_emitted_hr [] t.
 
 (* ---------- sizes of the two signature fields of the witness set ---------- *)
 (* one vkey witness: array(2) [bytes(32), bytes(64)] *)
@@ -225,12 +239,13 @@ Definition genesis_corrected (t : tx_ops) (o : obs) : obs :=
   {| o_predicted := o_predicted o + vkeys_field_size (N.of_nat (length (needed_vkeys_gen true true true true t)))
                     - vkeys_field_size (N.of_nat (length (needed_vkeys_gen true true true false t)));
      o_signed := o_signed o; o_emitted := o_emitted o |}.
-Definition judge (t : tx_ops) (o : obs) : verdict :=
+Definition judge_hr (hr : hash_rank) (t : tx_ops) (o : obs) : verdict :=
   if negb (wits_match t) then NA
   else
     let consistent := consistent_owners (t_inputs t) && consistent_owners (t_collateral t) in
     let size_ok := size_clause o in
-    let avail_ok := scripts_available t (o_emitted o) in
+    let avail_ok := scripts_available t (o_emitted o) && vote_redeemers_ok hr t (o_emitted o)
+                    && mint_policies_ok t (o_emitted o) in
     let once_ok := scripts_not_twice t (o_emitted o) || negb (collateral_plain t) in
     if size_ok && avail_ok && once_ok then Holds
     else if negb consistent then Fails 1
@@ -240,6 +255,8 @@ Definition judge (t : tx_ops) (o : obs) : verdict :=
       let once_explained := once_ok || negb (no_mixed_supply t) in
       if size_explained && avail_ok && once_explained then (if size_ok then Fails 2 else Fails 3)
       else Fails 0.
+
+Definition judge (t : tx_ops) (o : obs) : verdict := judge_hr [] t o.
 
 (* ---------- what the driver prints for a case ---------- *)
 Record model_out : Type := {
@@ -252,12 +269,16 @@ Record model_out : Type := {
   m_required_signers : list key;
   m_collateral : list oref
 }.
-Definition model_obs (tb : attr_table) (t : tx_ops) : model_out :=
+Definition model_obs_hr (hr : hash_rank) (tb : attr_table) (t : tx_ops) : model_out :=
   {| m_acceptance := acceptance t;
      m_predicted := predicted_sig_bytes tb t;
      m_signed := signed_sig_bytes tb t;
      m_sign_keys := required_keys_spec t;
      m_sign_boots := required_boots_spec t;
-     m_emitted := model_emitted t;
+     m_emitted := model_emitted_hr hr t;
      m_required_signers := body_required_signers t;
      m_collateral := body_collateral t |}.
+Definition model_obs (tb : attr_table) (t : tx_ops) : model_out := model_obs_hr [] tb t.
+(* None: the builder refuses to build (full_size / build_tx return an error) *)
+Definition model_result (hr : hash_rank) (tb : attr_table) (t : tx_ops) : option model_out :=
+  if build_refused t then None else Some (model_obs_hr hr tb t).
